@@ -27,6 +27,7 @@ import (
 //   data            one generated data set, N generated queries judged by (1) the three-valued
 //                   reference evaluator on the documented core, (2) metamorphic relations,
 //                   (3) recover() + watchdog around every request
+//   multi-agg       aggregates over SEVERAL targets (two relations / inline arrays / collections), see c08_multi_target.go
 //   malformed       token-level mutations of valid requests + a fixed list of pathological requests
 //   signed          commits / latestCommits / _version over SIGNED commits, every subset of commit fields
 //   json-order      order on a JSON field that holds values of different types
@@ -36,6 +37,7 @@ import (
 type c08Params struct {
 	NU      int    `json:"nu,omitempty"`
 	NG      int    `json:"ng,omitempty"`
+	NG2     int    `json:"ng2,omitempty"`
 	Queries int    `json:"queries,omitempty"`
 	Anchor  string `json:"anchor,omitempty"`
 	Part    int    `json:"part,omitempty"`
@@ -51,6 +53,7 @@ func c08Cases(seed uint64, tier string) []core.Case {
 	// anchors (seed independent)
 	cs = append(cs, core.MkCase("data", 1, c08Params{Anchor: "ties-and-aggregates", Queries: 40}))
 	cs = append(cs, core.MkCase("data", 1, c08Params{Anchor: "edge-values", Queries: 30}))
+	cs = append(cs, core.MkCase("multi-agg", 1, c08Params{Anchor: "two-targets-with-different-extrema", Queries: 20}))
 	cs = append(cs, core.MkCase("malformed", 1, c08Params{Anchor: "pathological", NU: 5, NG: 2}))
 	cs = append(cs, core.MkCase("json-order", 1, c08Params{}))
 	for i := range qsem.FragmentCycles {
@@ -76,6 +79,9 @@ func c08Cases(seed uint64, tier string) []core.Case {
 			p.NU = []int{0, 1, 2}[rng.IntN(3)] // tiny collections
 		}
 		cs = append(cs, core.MkCase("data", rng.Uint64(), p))
+		if i%3 == 0 { // multi-target aggregates: P with 0-5 documents, B and C with 0-8
+			cs = append(cs, core.MkCase("multi-agg", rng.Uint64(), c08Params{NU: rng.IntN(6), NG: rng.IntN(9), NG2: rng.IntN(9), Queries: 60}))
+		}
 		if i%4 == 3 && nMal > 0 {
 			nMal--
 			cs = append(cs, core.MkCase("malformed", rng.Uint64(), c08Params{NU: 1 + rng.IntN(6), NG: 1 + rng.IntN(2), Queries: 200}))
@@ -92,6 +98,8 @@ func init() {
 		ID: "C08", Level: "exploration",
 		Rule: "generated data sets (0-12 documents of a multi-kind collection with small value domains and nulls, related many-to-one to a second collection) x generated queries " +
 			"(filters of depth <=3 over comparison/membership/_and/_or/_not, 1-4 order keys incl. through the relation, limit/offset, top-level / grouped / per-relation aggregates with inner filters); " +
+			"a second schema (P with four inline numeric arrays and two one-to-many relations) x aggregates that list 2-3 targets (relations, inline arrays, collections at top level; with and without inner filters; " +
+			"per document, inside _group, top level), judged by the arithmetic over the union of the values listed for the targets; " +
 			"oracles: three-valued reference evaluator on the documented core, metamorphic laws (_not = complement, _and = intersection, _or = union, ordered = sorted permutation, limit/offset = slice, " +
 			"aggregate = arithmetic over the listed values, groups partition the list); every request under recover() and a watchdog; token-mutated and pathological requests; " +
 			"commit queries over signed commits with every subset of commit fields. distinct = query skeleton x data signature; non-trivial = result neither empty nor everything, or an order with first-key ties.",
@@ -100,6 +108,8 @@ func init() {
 		CaseTimeout: 10 * time.Minute,
 		Floors: []string{"ref_rows_judged", "metamorphic_not", "metamorphic_and_or", "order_checks", "order_multikey_first_key_ties", "limit_checks",
 			"edge_value_checks", "agg__count", "agg__sum", "agg__avg", "agg__min", "agg__max", "agg_in_group", "agg_inner_filter", "group_partition_checks",
+			"agg_multi_target", "agg_multi_target__count", "agg_multi_target__sum", "agg_multi_target__avg", "agg_multi_target__min", "agg_multi_target__max",
+			"agg_multi_target_minima_differ", "agg_multi_target_maxima_differ", "agg_multi_target_in_group", "agg_multi_target_top_level", "agg_multi_target_inner_filter",
 			"signed_commit_queries_without_signature", "signed_commit_queries_with_signature", "malformed_requests", "pathological_requests", "memstore_requests", "requests_answered_error"},
 		Assumptions: []string{
 			"null sorts before every value (ASC); the documentation does not say so, the rule is the implementation's and is used only to judge order keys",
@@ -117,6 +127,8 @@ func c08Run(ctx context.Context, c core.Case, r *core.Rec) {
 	switch {
 	case c.Kind == "data":
 		c08RunData(ctx, c, p, r)
+	case c.Kind == "multi-agg":
+		c08RunMultiAgg(ctx, c, p, r)
 	case c.Kind == "malformed":
 		c08RunMalformed(ctx, c, p, r)
 	case c.Kind == "signed":
